@@ -630,7 +630,37 @@ def b_sum(I, st, args, kw, node):
     raise Unsupported("sum()")
 
 
+_RNG_SEED = z3.Function("rng_seed", z3.IntSort(), z3.IntSort())
+
+
+def b_default_rng(I, st, args, kw, node):
+    used("default_rng(seed): the generator state is a function of an integer seed (fresh entropy for None)")
+    seed = args[0] if args else NONE
+    o = st.new_obj("rng")
+    if seed is NONE:
+        st.heap[o.oid]["state"] = z3.Int(fresh_name("entropy"))
+    elif isinstance(seed, Opt):
+        st.heap[o.oid]["state"] = z3.If(seed.is_none, z3.Int(fresh_name("entropy")), _RNG_SEED(to_z3(seed.val)))
+    else:
+        st.heap[o.oid]["state"] = _RNG_SEED(to_z3(seed))
+    return o
+
+
+def _z(x):
+    """to_z3 for spec-function arguments (optional values are unwrapped: specs guard them with `is not None`)."""
+    return to_z3(x.val if isinstance(x, Opt) else x)
+
+
+def _uf(f, n):
+    return lambda I, st, a, k, node: f(*[to_z3(x) for x in a[:n]])
+
+
 BUILTIN_FUNCS = {
+    "__rng_seed": lambda I, st, a, k, n: _RNG_SEED(_z(a[0])),
+    "__rng_next": lambda I, st, a, k, n: _RNG_NEXT(_z(a[0]), _z(a[1])),
+    "__rng_int": lambda I, st, a, k, n: _RNG_INT(*[_z(x) for x in a]),
+    "__rng_real": lambda I, st, a, k, n: _RNG_REAL(_z(a[0]), _z(a[1])),
+    "default_rng": b_default_rng,
     "len": b_len, "range": b_range, "enumerate": b_enumerate, "zip": b_zip,
     "max": b_max, "min": lambda I, st, a, k, n: b_max(I, st, a, k, n, is_max=False),
     "abs": b_abs, "int": b_int, "float": b_float, "bool": b_bool, "list": b_list, "tuple": b_tuple, "pow": b_pow,
